@@ -24,13 +24,15 @@ import (
 )
 
 type bufCtx struct {
-	recv   types.Object
-	bufObj types.Object // the variable that denotes the buffer (the receiver, or Put's parameter)
-	isPool bool         // receiver is a *PoolAllocator[T]: p.alloc.X are the parameters a_ch, a_len, a_cap
-	isChan bool         // receiver is a C[T] value: the buffer is c.Buffer, the channel number c.channel
-	res    bool         // translating in the res shape
-	void   bool
-	wrote  bool // heap or header changed somewhere: the method is not read-only
+	recv     types.Object
+	bufObj   types.Object // the variable that denotes the buffer (the receiver, or Put's parameter)
+	isPool   bool         // receiver is a *PoolAllocator[T]: p.alloc.X are the parameters a_ch, a_len, a_cap
+	isAlloc  bool         // the function Alloc[T](a Allocator): a.X are the parameters a_ch, a_len, a_cap; no buffer yet
+	allocObj types.Object
+	isChan   bool // receiver is a C[T] value: the buffer is c.Buffer, the channel number c.channel
+	res      bool // translating in the res shape
+	void     bool
+	wrote    bool // heap or header changed somewhere: the method is not read-only
 }
 
 type needRes struct{ why string }
@@ -103,6 +105,18 @@ func (b *body) bufExpr(e ast.Expr, en env, bs *binds) (string, ty, bool) {
 		}
 		if id, ok := x.X.(*ast.Ident); ok && b.bm.isChan && t.info.Uses[id] == b.bm.recv && x.Sel.Name == "channel" {
 			return "c_channel", intT, true
+		}
+		if b.bm.isAlloc {
+			if id, ok := x.X.(*ast.Ident); ok && t.info.Uses[id] == b.bm.allocObj {
+				switch x.Sel.Name {
+				case "Channels":
+					return "a_ch", intT, true
+				case "Length":
+					return "a_len", intT, true
+				case "Capacity":
+					return "a_cap", intT, true
+				}
+			}
 		}
 		if b.bm.isPool {
 			if in, ok := x.X.(*ast.SelectorExpr); ok && in.Sel.Name == "alloc" {
@@ -276,6 +290,20 @@ func (b *body) bufStmt(s ast.Stmt, tail []ast.Stmt, rest [][]ast.Stmt, en env, i
 					}
 					if chE == "" || depE == "" || dataE == nil {
 						fail("Buffer literal without channels, data and bitDepth")
+					}
+					if mk, ok := dataE.(*ast.CallExpr); ok {
+						if id, ok := mk.Fun.(*ast.Ident); ok && id.Name == "make" && len(mk.Args) == 3 {
+							// make([]T, n, c): a fresh zeroed block; panics unless 0 <= n <= c
+							et := t.tyOf(t.info.Types[mk.Args[0]].Type.(*types.Slice).Elem())
+							if et.c != cMixed || et.lean == "" {
+								fail("make of a slice of %s", et.key)
+							}
+							n, _ := b.expr(mk.Args[1], en, &bs)
+							c, _ := b.expr(mk.Args[2], en, &bs)
+							p := en.fresh("p")
+							return pre(bs) + ind + fmt.Sprintf("(Res.ofOption %s Panic.other (make %s %s %s %s)).bind fun _ %s =>\n", en.hv, en.hv, et.lean, n, c, p) +
+								ind + fmt.Sprintf("Res.ok %s.1 { %s.2 with ch := (%s).toNat, depth := (%s).toNat }", p, p, chE, depE), true
+						}
 					}
 					d := b.sliceOf(dataE, en, &bs)
 					return pre(bs) + ind + fmt.Sprintf("Res.ok %s (%s, { %s with ch := (%s).toNat, depth := (%s).toNat })", en.hv, en.bv, d, chE, depE), true
@@ -454,7 +482,21 @@ func (t *tr) bufMethodShape(d *ast.FuncDecl, obj types.Object, name string, res 
 	}()
 	sig := obj.Type().(*types.Signature)
 	owner, _ := bufName(obj)
+	if sig.Recv() == nil {
+		owner = "func"
+	}
 	bm := &bufCtx{recv: sig.Recv(), bufObj: sig.Recv(), isChan: owner == "C", isPool: owner == "PoolAllocator", res: res, void: sig.Results().Len() == 0}
+	if sig.Recv() == nil {
+		// Alloc[T](a Allocator) *Buffer[T]
+		bm.isAlloc, bm.bufObj = true, nil
+		if sig.Params().Len() != 1 || !isBufferPtr(sig.Results().At(0).Type()) {
+			fail("not of the form Alloc[T](a Allocator) *Buffer[T]")
+		}
+		bm.allocObj = sig.Params().At(0)
+		if !res {
+			panic(needRes{"allocates"})
+		}
+	}
 	if bm.isPool {
 		bm.bufObj = nil
 		for i := 0; i < sig.Params().Len(); i++ {
@@ -478,6 +520,13 @@ func (t *tr) bufMethodShape(d *ast.FuncDecl, obj types.Object, name string, res 
 	if res {
 		params = " (h : Heap) (b : Buf)"
 	}
+	if bm.isAlloc {
+		tp, ok := t.typeParams(sig)
+		if !ok {
+			fail("type parameters")
+		}
+		params = tp + " (h : Heap) (a_ch a_len a_cap : Int)"
+	}
 	if bm.isChan {
 		params += " (c_channel : Int)"
 	}
@@ -486,7 +535,7 @@ func (t *tr) bufMethodShape(d *ast.FuncDecl, obj types.Object, name string, res 
 	}
 	for i := 0; i < sig.Params().Len(); i++ {
 		v := sig.Params().At(i)
-		if v == bm.bufObj {
+		if v == bm.bufObj || v == bm.allocObj {
 			continue
 		}
 		pt := t.tyOf(v.Type())
@@ -517,6 +566,9 @@ func (t *tr) bufMethodShape(d *ast.FuncDecl, obj types.Object, name string, res 
 	text := b.stmts(d.Body.List, nil, en, "  ")
 	shape := "pure"
 	switch {
+	case res && bm.isAlloc:
+		shape = "res"
+		resTy = "Res Buf"
 	case res:
 		shape = "res"
 		resTy = "Res (Buf × " + resTy + ")"
